@@ -312,7 +312,9 @@ def write_evidence(prop, tier, seed, outcomes, kres, kf_open, kf_lines, kf_notes
         for h in kres['results']:
             rec = dict(engine='kani', harness=h['name'], contract=h.get('contract'), kind=h['kind'],
                        status=h['status'], checks=h.get('checks'), failed_checks=h.get('failed'), solver_s=h.get('time_s'))
-            if h['kind'] == 'complete':
+            if h.get('canary'):
+                rec['role'] = 'vacuity canary (must fail)'
+            elif h['kind'] == 'complete':
                 n = h.get('checks') or 1
                 obligations += n
                 discharged += n - (h.get('failed') or 0) if h['status'] == 'ok' else 0
